@@ -80,3 +80,7 @@ Fixpoint convert_go (ll : bool) (stack : list fline) (lines : list str) : list s
     else convert_go ll (stack ++ [f]) lines'
   end.
 Definition convert_to_free (ll : bool) (lines : list str) : list str := convert_go ll [] lines.
+
+(* the reader receives the converted lines; its patterns stop before the final newline *)
+Definition chomp (x : str) : str :=
+  match rev x with c :: r => if Ascii.eqb c nl then rev r else x | [] => x end.
